@@ -250,7 +250,7 @@ static void emitCall(FILE* out, const char* op, const std::string& arg, const ch
 	fprintf(out, "{\"k\":\"call\",\"op\":\"%s\",\"arg\":%s,\"ret\":\"%s\",\"atoms\":[", op, arg.c_str(), ret);
 	for (size_t i = 0; i < rec.atoms.size(); i++) fprintf(out, "%s%s", i ? "," : "", rec.atoms[i].c_str());
 	fprintf(out, "],\"cfg\":%s}\n", cfg.c_str());
-	fprintf(out, "#{\"k\":\"raw\",\"op\":\"%s\",\"ret\":\"%s\",\"c\":[", op, ret);
+	fprintf(out, "#{\"k\":\"raw\",\"op\":\"%s\",\"ret\":\"%s\",\"cfg\":%s,\"c\":[", op, ret, cfg.c_str());
 	for (size_t i = 0; i < rec.raw.size(); i++) fprintf(out, "%s%s", i ? "," : "", rec.raw[i].c_str());
 	fprintf(out, "]}\n");
 	rec.clear();
@@ -282,6 +282,7 @@ static int runCase(const Case& c, FILE* out) {
 		if (c.mode.compare(0, 7, "cancel@") == 0) cancelAt = atoi(c.mode.c_str() + 7);
 		int steps = 0;
 		int idles = 0;
+		bool finishedOnce = false;
 		InterpreterState st = USCXML_UNDEF;
 		while (steps < MAXSTEPS) {
 			if (cancelAt >= 0 && steps == cancelAt) {
@@ -292,7 +293,11 @@ static int runCase(const Case& c, FILE* out) {
 			st = interp.step(0);
 			steps++;
 			emitCall(out, "step", "[]", stateName(st), rec, st == USCXML_INITIALIZED ? "[]" : cfgJson(interp));
-			if (st == USCXML_FINISHED) break;
+			if (st == USCXML_FINISHED) {
+				if (finishedOnce) break;
+				finishedOnce = true;   // one more step: FINISHED is absorbing
+				continue;
+			}
 			if (st == USCXML_INITIALIZED && preload) {
 				for (; wi < c.words.size(); wi++) {
 					rec.inReceive = true;
